@@ -393,7 +393,8 @@ class Cid(object):
                         field_type += "."
                     field_type += _tools.validated_python_name("field type part", part)
                 assert field_type, "empty field type must be detected by validated_python_name()"
-            except NameError as error:
+            except (NameError, errors.InterfaceError) as error:
+                # Note: a type the tokenizer cannot split results in an InterfaceError without location.
                 raise errors.InterfaceError(str(error), self._location)
         field_class = self._create_field_format_class(field_type)
         self._location.advance_cell()
@@ -514,8 +515,18 @@ class Cid(object):
             )
         _log.debug("create check: %s(%r, %r)", check_type, check_description, check_rule)
         check_class = self._create_check_class(check_type)
-        check = check_class.__new__(check_class, check_description, check_rule, self._field_names, self._location)
-        check.__init__(check_description, check_rule, self._field_names, self._location)
+        try:
+            check = check_class.__new__(
+                check_class, check_description, check_rule, self._field_names, self._location
+            )
+            check.__init__(check_description, check_rule, self._field_names, self._location)
+        except errors.InterfaceError as error:
+            if error.location is None:
+                # For example a rule the tokenizer cannot split.
+                error.prepend_message(
+                    "cannot declare check %s" % _compat.text_repr(check_description), self._location
+                )
+            raise
         self._location.set_cell(1)
         existing_check = self._check_name_to_check_map.get(check_description)
         if existing_check is not None:
